@@ -519,9 +519,51 @@ class Origins:
     def __init__(self, repo: Repo) -> None:
         self.repo = repo
         self.T = types_of(repo)
+        self._bind_stmt: dict[tuple, ast.AST] = {}
+        self._aug_cache: dict[int, ast.BinOp] = {}
+        self._had_killer = False
 
     # -- bindings of a local name: list of ("value", expr) | ("elem", iterable, pos) | ("opaque", node)
     def _bindings(self, f: FuncInfo, name: str, use: ast.AST | None = None) -> list[tuple]:
+        """Bindings of `name` that can reach `use` (all of them without `use`): comprehension and loop scoping as in
+        `_bindings_all`, and a binding is dead where a later assignment of the same variable lies on every path to the use
+        (`p = name` ... `p = p + "."` ... use: only the second one)."""
+        out = self._bindings_all(f, name, use)
+        self._had_killer = False  # (read by _name right after the call: a dominating assignment also replaces a parameter's value)
+        if use is None or not out or isinstance(f.node, ast.Lambda):
+            return out
+        try:
+            use_line = getattr(use, "lineno", None)
+            if use_line is None:
+                return out
+            stmts = [self._bind_stmt.get((id(f.node), name, id(b[1]), b[2])) for b in out]
+            if any(st_ is None or not hasattr(st_, "lineno") for st_ in stmts):
+                return out
+            chain = [use, *ancestors(use)]
+            killer = None
+            for b, st_ in zip(out, stmts):
+                if b[0] != "value" or b[2] or not isinstance(st_, (ast.Assign, ast.AugAssign, ast.AnnAssign)):
+                    continue
+                if getattr(st_, "end_lineno", st_.lineno) >= use_line:
+                    continue
+                blk_owner = parent(st_)
+                # the assignment dominates the use if a later statement of the very block it sits in contains the use
+                dominating = False
+                for fld in ("body", "orelse", "finalbody"):
+                    blk = getattr(blk_owner, fld, None)
+                    if isinstance(blk, list) and any(x is st_ for x in blk):
+                        idx = next(k for k, x in enumerate(blk) if x is st_)
+                        dominating = any(any(x is c for c in chain) for x in blk[idx + 1 :])
+                if dominating and (killer is None or st_.lineno > killer.lineno):
+                    killer = st_
+            if killer is None:
+                return out
+            self._had_killer = True
+            return [b for b, st_ in zip(out, stmts) if st_ is killer or st_.lineno > killer.lineno]
+        except Exception:  # noqa: BLE001
+            return out
+
+    def _bindings_all(self, f: FuncInfo, name: str, use: ast.AST | None = None) -> list[tuple]:
         """Bindings of `name` visible at `use`: a comprehension variable is local to its comprehension (and shadows a function
         level variable of the same name there); without `use` every binding in the function is returned."""
         out: list[tuple] = []
@@ -547,10 +589,13 @@ class Origins:
                     for g in n.generators:
                         comp_of[id(g)] = n
 
+        current: list[ast.AST] = [f.node]
+
         def bind_target(tgt: ast.expr, kind: str, src: ast.expr, pos: tuple) -> None:
             if isinstance(tgt, ast.Name):
                 if tgt.id == name:
                     out.append((kind, src, pos))
+                    self._bind_stmt[(id(f.node), name, id(src), pos)] = current[0]
             elif isinstance(tgt, (ast.Tuple, ast.List)):
                 for i, el in enumerate(tgt.elts):
                     if isinstance(el, ast.Starred):
@@ -560,6 +605,7 @@ class Origins:
                         bind_target(el, kind, src, pos + (i,))
 
         for n in own_nodes(f.node):
+            current[0] = n
             if isinstance(n, ast.Assign):
                 for t in n.targets:
                     bind_target(t, "value", n.value, ())
@@ -567,7 +613,9 @@ class Origins:
                 bind_target(n.target, "value", n.value, ())
             elif isinstance(n, ast.AugAssign):
                 if isinstance(n.target, ast.Name) and n.target.id == name:
-                    out.append(("value", ast.BinOp(left=ast.Name(id="<prev>", ctx=ast.Load()), op=n.op, right=n.value), ()))
+                    synthetic = self._aug_cache.setdefault(id(n), ast.BinOp(left=ast.Name(id="<prev>", ctx=ast.Load()), op=n.op, right=n.value))
+                    out.append(("value", synthetic, ()))
+                    self._bind_stmt[(id(f.node), name, id(synthetic), ())] = n
             elif isinstance(n, (ast.For, ast.AsyncFor)):
                 bind_target(n.target, "elem", n.iter, ())
             elif isinstance(n, ast.comprehension):
@@ -881,17 +929,19 @@ class Origins:
             return self._name(f.outer, e, d, seen, pos) if f.outer is not None else opaque
         binds = self._bindings(f, name, e)
         if name in f.param_names:
-            if binds:
-                return opaque  # re-bound parameter: flow-insensitive view is not sound enough here
-            if not pos and _declared_node_name(f, name):
-                return [(f, e, "value")]  # Node / AbstractNode / ModuleName: a plain module name by its declared type
-            args = _callers_args(self.repo, f, name)
-            if not args:
-                return opaque
-            out = []
-            for g, a in args:
-                out += self.value(g, a, d, seen, pos)
-            return out
+            if binds and not self._had_killer:
+                return opaque  # re-bound parameter (on some path): the flow-insensitive view is not sound enough here
+            if not binds:
+                if not pos and _declared_node_name(f, name):
+                    return [(f, e, "value")]  # Node / AbstractNode / ModuleName: a plain module name by its declared type
+                args = _callers_args(self.repo, f, name)
+                if not args:
+                    return opaque
+                out = []
+                for g, a in args:
+                    out += self.value(g, a, d, seen, pos)
+                return out
+            # (else: an assignment that lies on every path to the use has replaced the parameter's value)
         if not binds:
             if f.outer is not None:
                 return self._name(f.outer, e, d, seen, pos)
@@ -1259,6 +1309,12 @@ def _leaf_status(repo: Repo, g: FuncInfo, e: ast.expr, kind: str, depth: int) ->
         if isinstance(fn, ast.Attribute) and nm == "format" and _const_str(fn.value) is not None:
             s = _const_str(fn.value)
             return "dot" if s.endswith(".") else ("unknown" if s.endswith("}") else "bare")
+        if isinstance(fn, ast.Attribute) and nm == "replace" and len(e.args) == 2 and _const_str(e.args[1]) == "." and isinstance(fn.value, ast.Call) and _call_name(fn.value) == "str":
+            sep = e.args[0]
+            if _const_str(sep) in ("/", "\\") or (isinstance(sep, (ast.Name, ast.Attribute)) and (repo.resolve_name(g.module, sep) or "") in ("os.sep", "os.path.sep")):
+                # str(path) never ends with a separator: the dotted form ends with a component ("." itself - the empty
+                # relative path - is no module name and is excluded where such a value is appended)
+                return "bare"
         if isinstance(fn, ast.Attribute) and nm in ("lower", "upper", "casefold", "lstrip", "removeprefix"):
             return dot_status(repo, g, fn.value, depth + 1)
         if isinstance(fn, ast.Name) and nm in ("tuple", "list", "sorted", "set", "frozenset") and len(e.args) >= 1:
@@ -1271,7 +1327,7 @@ def _leaf_status(repo: Repo, g: FuncInfo, e: ast.expr, kind: str, depth: int) ->
             neg_hi = isinstance(hi, ast.UnaryOp) and isinstance(hi.op, ast.USub) and isinstance(hi.operand, ast.Constant) and isinstance(hi.operand.value, int) and hi.operand.value > 0
             if lo is None and neg_hi:
                 inner = dot_status(repo, g, e.value, depth + 1)
-                return "bare" if inner in ("dot", "bare") else "unknown"  # the trailing separator (or more) is cut off
+                return "bare" if inner in ("dot", "bare", "mixed") else "unknown"  # the trailing separator (or more) is cut off
             if hi is None and lo is not None:
                 return dot_status(repo, g, e.value, depth + 1)  # the end of the string is kept
             return "unknown"
@@ -1337,7 +1393,36 @@ def dot_status(repo: Repo, f: FuncInfo, e: ast.expr, depth: int = 0) -> str:
     vals.discard("none")  # None on some path: the operation is not reached with it (it would raise)
     if len(vals) == 1:
         return vals.pop()
+    if vals and vals <= {"dot", "bare", "mixed"}:
+        return "mixed"  # every origin is decided, and they disagree: on some path / at some call site it is a plain name
     return "unknown"
+
+
+def dot_origins(repo: Repo, f: FuncInfo, e: ast.expr, want: str = "bare", depth: int = 0) -> list[tuple[FuncInfo, ast.expr]]:
+    """The origins of the value of `e` that have status `want` (for messages: which producer branch / call site yields a plain name)."""
+    out: list[tuple[FuncInfo, ast.expr]] = []
+    if depth > 4:
+        return out
+    try:
+        for g, x, kind in origins(repo).value(f, e):
+            st = _leaf_status(repo, g, x, kind, 0)
+            if st == want:
+                # `<prev> + tail`: the tail decides; say where the tail comes from if that is more telling
+                out.append((g, x))
+            elif st == "mixed":
+                inner = x.right if isinstance(x, ast.BinOp) else (x.values[-1].value if isinstance(x, ast.JoinedStr) and x.values and isinstance(x.values[-1], ast.FormattedValue) else None)
+                if inner is not None:
+                    out += dot_origins(repo, g, inner, want, depth + 1)
+    except Exception:  # noqa: BLE001
+        pass
+    seen: set[tuple[str, str]] = set()
+    uniq = []
+    for g, x in out:
+        k = (g.fq, norm(x))
+        if k not in seen:
+            seen.add(k)
+            uniq.append((g, x))
+    return uniq
 
 
 def needle_status(repo: Repo, f: FuncInfo, e: ast.expr) -> str:
@@ -2208,12 +2293,12 @@ def _slice_as_prefix_test(repo: Repo, f: FuncInfo, n: ast.Subscript) -> tuple[st
                 st = needle_status(repo, f, other_side)
                 if st == "dot":
                     return "safe", "prefix compared by slicing; the prefix ends in '.'"
-                if st in ("bare", "unknown"):
+                if st in ("bare", "mixed", "unknown"):
                     reason = _raw_test_is_guarded(repo, f, cmp_, n.value, other_side) if isinstance(cmp_.ops[0], ast.Eq) else None
                     if reason is not None:
                         return "safe", reason
-                if st == "bare":
-                    return "unsafe", f"`{norm(cmp_, 80)}`: raw string prefix test (by slicing) on a module name - 'pkg.ab' counts as part of 'pkg.a'"
+                if st in ("bare", "mixed"):
+                    return "unsafe", f"`{norm(cmp_, 80)}`: raw string prefix test (by slicing) on a module name - 'pkg.ab' counts as part of 'pkg.a'" + (" (the compared string ends with the separator only on some paths)" if st == "mixed" else "")
                 return None
             if off == 1 and _is_dotted_form(side, {norm(p_)}):
                 return "safe", "prefix plus separator compared by slicing (whole dotted components)"
@@ -3405,9 +3490,13 @@ def _scan(repo: Repo) -> list[Site]:
                             sites.append(Site(f, n, op, hay, needle, True, "not-name", "constant prefixes: a lexical test, not a relation between two module names"))
                             continue
                         sts = {needle_status(repo, f, p) for p in parts}
-                        st = sts.pop() if len(sts) == 1 else ("bare" if "bare" in sts else "unknown")
+                        st = sts.pop() if len(sts) == 1 else ("bare" if "bare" in sts else ("mixed" if "mixed" in sts else "unknown"))
                         safe = st == "dot" or _boundary_companion(f, n, hay, needle)
                         why = "prefix ends in '.' (whole dotted components)" if safe else f"`{norm(n, 80)}`: raw string prefix test on a module name - 'pkg.ab' counts as part of 'pkg.a'"
+                        if st == "mixed" and not safe:
+                            plain = [o for p_ in parts for o in dot_origins(repo, f, p_)]
+                            shown = "; ".join(f"`{norm(x.right if isinstance(x, ast.BinOp) and isinstance(x.left, ast.Name) and x.left.id == '<prev>' else x, 60)}`{' appended' if isinstance(x, ast.BinOp) and isinstance(x.left, ast.Name) and x.left.id == '<prev>' else ''} in {g.relpath.split('/')[-1]}::{g.qualname}" for g, x in plain[:3])
+                            why = f"`{norm(n, 80)}`: the prefix ends with the separator '.' only on some paths - it is a plain name where it comes from {shown or 'another origin'}: there this is a raw string prefix test ('pkg.core_utils' counts as part of 'pkg.core')"
                         if not safe and _boundary_predicate(repo, f, norm(hay), norm(needle)):
                             safe, why = True, "raw prefix test inside a predicate that also requires the next character to be '.' or absent"
                             boundary_funcs.add(f.fq)
@@ -3415,7 +3504,7 @@ def _scan(repo: Repo) -> list[Site]:
                             reason = _raw_test_is_guarded(repo, f, n, hay, needle)
                             if reason is not None:
                                 safe, why = True, reason
-                        if not safe and op == "removeprefix" and st == "bare" and len(parts) == 1:
+                        if not safe and op == "removeprefix" and st in ("bare", "mixed") and len(parts) == 1:
                             v, w = _slice_by_len(repo, f, n, needle, boundary_funcs, hay_e=hay)
                             if v == "safe":
                                 safe, why = True, w
